@@ -5,6 +5,10 @@ wording.  n = (quick, thorough) generator size per slice; slices = (quick, thoro
 def T(family, n, slices, variant="std", env=None):
     return {"family": family, "variant": variant, "n": n, "slices": slices, "env": env or {}}
 
+RULE_LATTICE = ("; lattice_* = the EXHAUSTIVE product of structural operand classes at binary64 (the image of the small-format models' operand sets: "
+                "10 significand shapes x every low-word class beside them (zeros, tie, quarter-ulp limit and their neighbours, short and full-width words "
+                "1-3 binades below, far below, least subnormal / least normal) for both operands x the ulp offsets and exponent differences that matter "
+                "for the operation x spellings round-robin), cut into n slices dealt round-robin of which this tier validates the stated number")
 RULE_TRACE = ("seeded generators (directed operand classes: ties, powers of two, cancellation at every depth, "
               "subnormal low words, far-apart exponents; plus random) drive the real crate; every call is one "
               "trace event validated by TLC against the contract in exact limb arithmetic. distinct = distinct "
@@ -22,7 +26,7 @@ W_NEW = "2Sum/2Prod/new_div transcriptions on every word pair (a.hi in one binad
 W_ADD = "Alg. 4/6 transcriptions (operator, reversed-operand and assignment copies) on all valid pairs: contract clauses, copies agree, commutativity, a-b == a+(-b), antisymmetry up to zero sign"
 W_MUL = "Alg. 9/12 transcriptions on all valid pairs: contract clauses incl. unit/power-of-two exactness, copies agree, (-a)b == -(ab) up to zero sign"
 W_DIV = "Alg. 15 and the three hand-copied long divisions + renorm3 on all valid pairs: contract clauses, copies agree, recip"
-W_REM = "rem on top of div/trunc/mul/sub transcriptions on all valid pairs: truncated-quotient contract"
+W_REM = "rem on top of div/trunc/mul/sub transcriptions on all valid pairs, with TwoFloat and f64 divisors and f64 dividends (the three bodies of the source): truncated-quotient contract"
 W_NOV = "the exponent-field algorithm of no_overlap against Definition 1.4 on EVERY pair of words of the format (zeros, subnormals, infinities, NaN)"
 W_FRAC = "the case splits of floor/ceil/trunc/round/fract against the exact functions on every valid value in a window wide enough for the fraction to live in hi, in lo, in both, nowhere"
 W_WIDE = "the wide-integer From macro (with the renormalisation fix) on EVERY integer of an unsigned and a signed type wider than 2P bits: valid, exact when <= 2P significant bits, else within 2^-2P"
@@ -42,39 +46,39 @@ W_CMP = "lexicographic comparison of normalised pairs == comparison of exact val
 PLAN = {
     "C02": {
         "level": "model_checking",
-        "rule": RULE_TRACE,
+        "rule": RULE_TRACE + RULE_LATTICE,
         "models": [MC("MC_P3_new.cfg", W_NEW), MC("MC_P4_new.cfg", W_NEW)],
-        "traces": [T("arith_new", (250, 4000), (12, 14))],
+        "traces": [T("arith_new", (250, 4000), (12, 14)), T("lattice_new", (8, 14), (8, 14))],
     },
     "C03": {
         "level": "exploration",
-        "rule": RULE_TRACE,
+        "rule": RULE_TRACE + RULE_LATTICE,
         "models": [MC("MC_P3_addsub.cfg", W_ADD, "thorough")],
-        "traces": [T("arith_add", (300, 40000), (12, 14))],
+        "traces": [T("arith_add", (300, 40000), (12, 14)), T("lattice_add", (2048, 56), (6, 14))],
     },
     "C04": {
         "level": "exploration",
-        "rule": RULE_TRACE,
+        "rule": RULE_TRACE + RULE_LATTICE,
         "models": [MC("MC_P3_mul.cfg", W_MUL), MC("MC_P4_mul.cfg", W_MUL, "thorough")],
-        "traces": [T("arith_mul", (400, 40000), (12, 14))],
+        "traces": [T("arith_mul", (400, 40000), (12, 14)), T("lattice_mul", (4096, 112), (6, 14))],
     },
     "C05": {
         "level": "exploration",
-        "rule": RULE_TRACE,
+        "rule": RULE_TRACE + RULE_LATTICE,
         "models": [MC("MC_P3_div.cfg", W_DIV, "thorough")],
-        "traces": [T("arith_div", (350, 30000), (12, 14))],
+        "traces": [T("arith_div", (350, 30000), (12, 14)), T("lattice_div", (8192, 112), (6, 14))],
     },
     "C19": {
         "level": "exploration",
-        "rule": RULE_TRACE,
+        "rule": RULE_TRACE + RULE_LATTICE,
         "models": [MC("MC_P3_rem.cfg", W_REM), MC("MC_P3_euclid.cfg", "div_euclid / rem_euclid / min / max transcriptions on all valid pairs (both signs of the dividend): floor/ceil quotient, remainder bound, exactness on integers", "thorough")],
-        "traces": [T("arith_rem", (300, 20000), (12, 14))],
+        "traces": [T("arith_rem", (300, 20000), (12, 14)), T("lattice_rem", (128, 14), (6, 14))],
     },
     "C06": {
         "level": "model_checking",
-        "rule": RULE_TRACE,
+        "rule": RULE_TRACE + RULE_LATTICE,
         "models": [MC("MC_P3_cmp.cfg", W_CMP), MC("MC_P4_cmp.cfg", W_CMP, "thorough")],
-        "traces": [T("cmp", (120, 15000), (12, 14))],
+        "traces": [T("cmp", (120, 15000), (12, 14)), T("lattice_cmp", (128, 14), (8, 14))],
         "specgen": [{"gen": "compare", "variant": "std"}],
     },
     "C07": {
@@ -85,16 +89,16 @@ PLAN = {
     },
     "C08": {
         "level": "model_checking",
-        "rule": RULE_TRACE,
+        "rule": RULE_TRACE + RULE_LATTICE,
         "models": [MC("MC_P3_frac.cfg", W_FRAC), MC("MC_P4_frac.cfg", W_FRAC, "thorough")],
-        "traces": [T("frac", (500, 60000), (12, 14))],
+        "traces": [T("frac", (500, 60000), (12, 14)), T("lattice_frac", (8, 14), (8, 14))],
     },
     "C09": {
         "level": "model_checking",
-        "rule": RULE_TRACE + "; conv_small = From<i8|u8|i16|u16> and the round trip for every value of the type",
+        "rule": RULE_TRACE + "; conv_small = From<i8|u8|i16|u16> and the round trip for every value of the type" + RULE_LATTICE,
         "models": [MC("MC_P3_wide.cfg", W_WIDE), MC("MC_P4_wide.cfg", W_WIDE), MC("MC_P3_toint_wide.cfg", W_TOINT, slices=8), MC("MC_P5_toint_narrow.cfg", W_TOINT),
                    MC("MC_P4_toint_wide.cfg", W_TOINT, "thorough")],
-        "traces": [T("conv", (600, 50000), (10, 14)), T("conv_small", (1, 1), (4, 16))],
+        "traces": [T("conv", (600, 50000), (10, 14)), T("conv_small", (1, 1), (4, 16)), T("lattice_un", (64, 14), (4, 14))],
     },
     "C10": {
         "level": "model_checking",
@@ -104,7 +108,7 @@ PLAN = {
     },
     "C01": {
         "level": "model_checking",
-        "rule": RULE_TRACE + "; prog = random programs of 50-200 calls over 8 registers with results fed back (the Normalised invariant is evaluated after every call); prog_elem = programs of 20-50 calls mixing arithmetic with every mathematical function, results fed back, with a directed block steering results one binade at a time through 2^-1074..2^-1000 and 2^990..2^1023 (validated with C01_ONLY=1: normalisation clause and determinism memo, the accuracy contracts are the business of C13-C18)",
+        "rule": RULE_TRACE + "; prog = random programs of 50-200 calls over 8 registers with results fed back (the Normalised invariant is evaluated after every call); prog_elem = programs of 20-50 calls mixing arithmetic with every mathematical function, results fed back, with a directed block steering results one binade at a time through 2^-1074..2^-1000 and 2^990..2^1023 (validated with C01_ONLY=1: normalisation clause and determinism memo, the accuracy contracts are the business of C13-C18)" + RULE_LATTICE,
         "models": [MCW("MC_Machine_P3.cfg", W_MACHINE), MCW("MC_Machine_P4.cfg", W_MACHINE, "thorough"),
                    MC("MC_P3_wide.cfg", W_WIDE), MC("MC_P3_frac.cfg", W_FRAC), MC("MC_P3_new.cfg", W_NEW), MC("MC_P4_exp2scale.cfg", W_EXP2SCALE, slices=8),
                    MC("MC_P3_addsub.cfg", W_ADD, "thorough"), MC("MC_P3_div.cfg", W_DIV, "thorough"), MC("MC_P5_exp2scale.cfg", W_EXP2SCALE, "thorough")],
@@ -115,7 +119,8 @@ PLAN = {
                    T("trig", (150, 3000), (2, 6), env={"C01_ONLY": "1"}), T("atrig", (150, 3000), (2, 6), env={"C01_ONLY": "1"}),
                    T("hyp", (150, 3000), (2, 6), env={"C01_ONLY": "1"}), T("angles", (150, 3000), (1, 4), env={"C01_ONLY": "1"}),
                    T("grid07", (64, 16), (4, 16)),
-                   T("prog_elem", (150, 5000), (8, 14), env={"C01_ONLY": "1"})],
+                   T("prog_elem", (150, 5000), (8, 14), env={"C01_ONLY": "1"}),
+                   T("lattice_add", (4096, 112), (2, 14)), T("lattice_mul", (8192, 224), (2, 14)), T("lattice_div", (16384, 224), (2, 14)), T("lattice_un", (64, 14), (4, 14))],
     },
     "C11": {
         "level": "exploration",
@@ -125,11 +130,17 @@ PLAN = {
                    T("arith_new", (150, 3000), (4, 8), "std"), T("arith_new", (150, 3000), (4, 8), "nostd"),
                    T("elem_all", (2500, 40000), (12, 14), "std"), T("elem_all", (2500, 40000), (12, 14), "nostd"),
                    T("frac", (100, 2000), (2, 4), "std"), T("frac", (100, 2000), (2, 4), "nostd"),
+                   T("arith_rem", (150, 3000), (4, 8), "std"), T("arith_rem", (150, 3000), (4, 8), "nostd"),
+                   T("arith_div", (100, 2000), (2, 6), "std"), T("arith_div", (100, 2000), (2, 6), "nostd"),
+                   T("arith_mul", (100, 2000), (2, 6), "std"), T("arith_mul", (100, 2000), (2, 6), "nostd"),
+                   T("arith_add", (100, 2000), (2, 6), "std"), T("arith_add", (100, 2000), (2, 6), "nostd"),
                    T("conv", (150, 3000), (2, 4), "std"), T("conv", (150, 3000), (2, 4), "nostd")],
         "trace_env": {"MEMO_ONLY": "1"},
         "merge": [{"family": "arith_all", "variants": ["std", "nostd"]}, {"family": "arith_new", "variants": ["std", "nostd"]},
                   {"family": "elem_all", "variants": ["std", "nostd"]}, {"family": "frac", "variants": ["std", "nostd"]},
-                  {"family": "conv", "variants": ["std", "nostd"]}, {"family": "fma", "variants": ["std", "nostd"]}],
+                  {"family": "conv", "variants": ["std", "nostd"]}, {"family": "fma", "variants": ["std", "nostd"]},
+                  {"family": "arith_rem", "variants": ["std", "nostd"]}, {"family": "arith_div", "variants": ["std", "nostd"]},
+                  {"family": "arith_mul", "variants": ["std", "nostd"]}, {"family": "arith_add", "variants": ["std", "nostd"]}],
     },
     "C12": {
         "level": "model_checking",
